@@ -87,7 +87,8 @@ def floors(tier):
               "decided:budget_overshoot": 100 * k, "runs:wait_trial_completion": 60 * k, "decided:results_file_rows": 300 * k,
               "decided:reentry_with_criterion_holding": 30 * k, "ended_by_criterion_after_exhaustion_with_trials_running": 5 * k,
               "decided:criterion_at_loop_start": 5000 * k,
-              "decided:second_experiment_sharing_thresholds": 20 * k})
+              "decided:second_experiment_sharing_thresholds": 20 * k,
+              "runs:thresholded_metric_nan_in_first_report": 15 * k})
     return f
 
 
@@ -186,11 +187,28 @@ def expand(spec):
     return p, spec
 
 
-def ref_criterion(stop, st, sim):
+class _OwnStats:
+    """min / max / count over all results handed to the tuning loop so far, computed by the harness from the recorded polls
+    (NaN values are ignored, as the running statistics are documented to do)."""
+
+    def __init__(self):
+        self.count = 0
+        self.min_metrics, self.max_metrics = {}, {}
+
+    def add(self, res):
+        self.count += 1
+        for k, v in res.items():
+            if isinstance(v, bool) or not isinstance(v, (int, float)) or v != v:
+                continue
+            self.min_metrics[k] = min(self.min_metrics.get(k, v), v)
+            self.max_metrics[k] = max(self.max_metrics.get(k, v), v)
+
+
+def ref_criterion(stop, st, sim, own=None):
     """Independent reading of the documented StoppingCriterion on a TuningStatus. Returns the list of
-    fields that hold."""
+    fields that hold. With ``own`` the metric statistics come from the harness' own bookkeeping."""
     hold = []
-    oms = st.overall_metric_statistics
+    oms = own if own is not None else st.overall_metric_statistics
     for f, v in stop.items():
         if f == "max_wallclock_time":
             if sim:
@@ -239,22 +257,46 @@ def run_case(spec):
         r = simrun.SimRun(p, spec["seed"])
     else:
         extra_fn = (lambda t, l, rn: {"loss2": ((t * 31 + l * 17) % 101) / 101.0}) if kind == "moasha" else None
-        r = simrun.ProcRun(p, spec["seed"], extra_fn=extra_fn)
+        value_fn = None
+        if any(isinstance(v_, dict) for v_ in p["stop"].values()) and kind in ("fifo_random", "fifo_grid", "median", "hb_stopping") \
+                and random.Random(spec["seed"] + 21).random() < 0.6:
+            # the thresholded metric is undefined (NaN) in the first report(s) of the experiment
+            base_v = gen.Curves(p.get("curves", "continuous"), spec["seed"] + 1, p["max_t"])
+            n_nan = random.Random(spec["seed"] + 22).randint(1, 2)
+
+            def value_fn(t, l, cfg=None):
+                return float("nan") if (t == 0 and l <= n_nan) else base_v(t, l, cfg)
+
+            o.count("runs:thresholded_metric_nan_in_first_report")
+        r = simrun.ProcRun(p, spec["seed"], extra_fn=extra_fn, value_fn=value_fn)
     tuner = r.tuner
     rec = r.rec
     log = {"loops": [], "after_hold": None}
 
     # ---- history-based reconstruction of trial statuses (as the tuner is documented to see them)
+    own = _OwnStats()
+    seen = {"i": 0}
+
+    def own_stats():
+        ev_ = rec.events
+        while seen["i"] < len(ev_):
+            e_ = ev_[seen["i"]]
+            seen["i"] += 1
+            if e_[1] == "b.fetch_status_results.ret":
+                for _t, res_ in e_[2]["ret"]["results"]:
+                    own.add(res_)
+        return own
+
     class Watch(TunerCallback):
         def on_loop_start(self):
             # the status at the start of an iteration is the one the criterion was evaluated on after the previous one
             st = tuner.tuning_status
             if st is not None:
-                rec.ev("h.loop_start", hold=ref_criterion(ref_stop, st, sim), failed_over=st.num_trials_failed > p["max_failures"])
+                rec.ev("h.loop_start", hold=ref_criterion(ref_stop, st, sim, own_stats()), failed_over=st.num_trials_failed > p["max_failures"])
 
         def on_loop_end(self):
             st = tuner.tuning_status
-            hold = ref_criterion(ref_stop, st, sim)
+            hold = ref_criterion(ref_stop, st, sim, own_stats())
             failed_over = st.num_trials_failed > p["max_failures"]
             rec.ev("h.loop_end", hold=hold, failed_over=failed_over,
                    counters={"started": st.num_trials_started, "completed": st.num_trials_completed,
